@@ -623,6 +623,12 @@ class Interp:
                 if all(isinstance(a, int) for a in args):
                     return list(range(*args))
                 self.err(n, "range over a non-concrete bound")
+            if f.id == "getattr" and len(n.args) == 2 and isinstance(n.args[0], ast.Name) and n.args[0].id == "self":
+                # attribute of the simulation chosen through a table: same as self.<name>
+                if not isinstance(args[1], str):
+                    self.err(n, "getattr(self, <name>) with a name the translator cannot decide (%r)" % (args[1],))
+                fld = self.cls.field_of_property(args[1])
+                return fld if fld is not None else opaque("self." + args[1])
             if f.id == "len":
                 if is_sym(args[0]):
                     return opaque(src)
